@@ -1,4 +1,5 @@
 PROP = dict(
+    ready=True,
     coq=["theories/Properties/C18.v"],
     suites=[dict(bin="obs-bulk")],
     trusted=[
